@@ -353,3 +353,26 @@ prop("C14", level="proof", bounded=[],
             "assumed not to be the reporter's own listing lists",
             "a status without a row in a v1 table raises KeyError (visible crash): partial correctness w.r.t. KeyError",
             "ModelVisitor.visit_* (collector traversal), StatusCounts/Counter arithmetic and format_summary_* are not under contract"])
+
+# -- end of run: the problem listings are printed iff there is something to list ----------------------------------
+ghost("listing_printed", "int")
+contract("abs:AbstractSummaryReporter.print_problematic_scenarios", trusted=True, params={"self": "ref:AbstractSummaryReporter"},
+         pos_params=["self", "stream"], defaults={"stream": None}, modifies=["G_listing_printed"],
+         ensures={"printed": "G_listing_printed == old(G_listing_printed) + 1"},
+         doc="prints the 'Failing scenarios:' and 'Errored scenarios:' sections (text: bounded)")
+contract("abs:AbstractSummaryReporter.print_summary", trusted=True, params={"self": "ref:AbstractSummaryReporter"},
+         pos_params=["self", "stream", "with_duration"], defaults={"stream": None, "with_duration": None},
+         modifies=["dict(self.feature_summary)", "dict(self.rule_summary)", "dict(self.scenario_summary)", "dict(self.step_summary)",
+                   "self._duration"],
+         doc="prints the count lines (formats: bounded)")
+contract(RS + "AbstractSummaryReporter.testrun_finished", inline=True)
+contract("abs:stream.write", trusted=True, pos_params=["self", "text"], pure=True, doc="stream.write (A-lib)")
+shape("AbstractSummaryReporter", show_failed_scenarios="bool")
+contract(RS + "AbstractSummaryReporter.end", props=P, params={"self": "ref:AbstractSummaryReporter"},
+         self_classes=["SummaryReporterV1"],
+         callsites={"self.stream.write": "abs:stream.write"},
+         modifies=["G_listing_printed", "self.testrun_end_time", "dict(self.feature_summary)", "dict(self.rule_summary)",
+                   "dict(self.scenario_summary)", "dict(self.step_summary)", "self._duration"],
+         ensures={"problem-listings-printed-iff-some-scenario-failed-or-errored":
+                  "G_listing_printed == old(G_listing_printed) + (1 if (self.show_failed_scenarios and "
+                  "(len(self._failed_scenarios) > 0 or len(self._errored_scenarios) > 0)) else 0)"})
